@@ -382,7 +382,10 @@ def fault_expr(rng, kind):
         return "(set! undefined-variable 1)"
     if kind == "type":
         return rng.choice(["(+ 1 'a)", "(car 5)", "(cdr '())", "(- \"s\")", "(< 1 #t)", "(vector-ref 5 0)",
-                           "(vector-ref (vector 1) 'x)", "(abs 'a)", "(apply + 1 2)", "(car (vector 1))"])
+                           "(vector-ref (vector 1) 'x)", "(abs 'a)", "(apply + 1 2)", "(car (vector 1))",
+                           # a single operand is type-checked too
+                           "(< 'a)", "(= \"x\")", "(boolean=? 5)", "(<= 'b)", "(> #t)", "(>= '(1))", "(+ 'a)", "(* \"s\")",
+                           "(- 'a)", "(/ 'a)", "(max 'a)", "(min \"q\")", "(apply < '(a))", "(apply = (list \"x\"))"])
     if kind == "vector-index":
         return rng.choice(["(vector-ref (vector 1 2) 2)", "(vector-ref (vector 1 2) -1)", "(vector-set! (vector 1 2) 5 0)",
                            "(vector-ref (vector) 0)", "(vector-ref '#(1 2 3) 3)", "(vector-set! (vector 1 2) -1 0)",
@@ -468,6 +471,8 @@ def history_program(rng, steps=40):
         ("(define (%s init) (define cell (vector init)) (lambda (d) (vector-set! cell 0 (+ d (vector-ref cell 0))) (vector-ref cell 0)))", "acc"),
         ("(define (%s . args) (lambda (d) (set! args (cons d args)) args))", "acc"),
         ("(define %s (lambda args (lambda (d) (set! args (cons d args)) args)))", "acc"),
+        # the closure is made in a round of a self-tail-recursive loop: each round has bindings of its own
+        ("(define (%s init) (define (spin k n acc) (if (= k 0) acc (spin (- k 1) (* n 10) (lambda (d) (set! n (+ n d)) (+ n (acc 0)))))) (spin 2 init (lambda (d) 0)))", "acc"),
         ("(define (%s init . rest) (lambda (d) (set! rest (cons (+ d init) rest)) rest))", "acc"),
     ]
     outer = rng.random() < 0.5
@@ -655,6 +660,30 @@ def loop_closure_program(rng):
     return forms
 
 
+def forward_reference_program(rng):
+    """a procedure body whose FIRST internal definition is initialised by calling a lambda created on the spot; the
+    closure it returns refers to internal definitions made later in the same body (legal: it is called only after
+    they exist). Internal definitions belong to the frame of the call, whatever was in it at the time."""
+    params = rng.choice(["", "", "p", "p q", ". r"])
+    args = {"": "", "p": "5", "p q": "5 6", ". r": rng.choice(["", "1 2"])}[params]
+    maker = rng.choice(["((lambda () (lambda () (+ later %d))))", "(apply (lambda () (lambda () (+ later %d))) '())",
+                        "((lambda (f) (f)) (lambda () (lambda () (+ later %d))))",
+                        "((lambda (k) (lambda () (+ later k))) %d)"]) % rng.randint(1, 9)
+    outer = rng.random() < 0.5
+    forms = []
+    if outer:
+        forms.append("(define later 7)")          # an outer binding of the same name must not be picked up
+    header = "(define (mk%s%s)" % (" " if params else "", params) if rng.random() < 0.7 else "(define mk (lambda (%s)" % params
+    close = ")" if header.startswith("(define (mk") else "))"
+    body = "(define get %s) (define later %d) (define (helper) (get)) (list (get) (helper))" % (maker, rng.randint(100, 200))
+    forms.append("%s %s%s" % (header, body, close))
+    forms.append("(mk %s)" % args if args else "(mk)")
+    forms.append("(list (mk %s))" % args if args else "(list (mk))")
+    if outer:
+        forms.append("later")
+    return forms
+
+
 # ------------------------------------------------------------------------------------------
 # C02: loops whose recursive call sits in a composition of tail contexts
 # ------------------------------------------------------------------------------------------
@@ -677,7 +706,7 @@ TAIL_CONTEXTS = {
     "apply": "(apply (lambda () %s) '())",
 }
 LOOP_SHAPES = ["self", "mutual2", "mutual3", "higher-order", "variadic", "closure-returned",
-               "operator-call", "operator-if", "operator-car"]
+               "operator-call", "operator-if", "operator-car", "internal-define", "internal-helper", "body-effect"]
 
 
 def loop_program(shape, contexts):
@@ -688,6 +717,12 @@ def loop_program(shape, contexts):
         return t
     if shape == "self":
         return ["(define (loop i n) (if (< i n) %s i))" % wrap("(loop (+ i 1) n)")], "(loop 0 %d)"
+    if shape == "internal-define":
+        return ["(define (loop i n) (define next (+ i 1)) (if (< i n) %s i))" % wrap("(loop next n)")], "(loop 0 %d)"
+    if shape == "internal-helper":
+        return ["(define (loop i n) (define (step k) (+ k 1)) (define unused 0) (if (< i n) %s i))" % wrap("(loop (step i) n)")], "(loop 0 %d)"
+    if shape == "body-effect":
+        return ["(define seen 0)", "(define (loop i n) (set! seen i) (if (< i n) %s i))" % wrap("(loop (+ i 1) n)")], "(loop 0 %d)"
     if shape == "mutual2":
         return ["(define (la i n) (if (< i n) %s i))" % wrap("(lb (+ i 1) n)"),
                 "(define (lb i n) (if (< i n) %s i))" % wrap("(la (+ i 1) n)")], "(la 0 %d)"
@@ -853,6 +888,8 @@ class MacroGen:
         if depth <= 0:
             return "w"
         inner = " ".join(self.datum(depth - 1) for _ in range(r.randint(0, 3)))
+        if inner and r.random() < 0.15:
+            return "(%s . %s)" % (inner, r.choice(["1", "y", "(z)"]))
         return ("(%s)" if r.random() < 0.8 else "#(%s)") % inner
 
     def instance(self, p, mutate):
@@ -886,6 +923,9 @@ class MacroGen:
             items.pop(r.randrange(len(items)))
         if mutate and r.random() < 0.1:
             items.insert(r.randint(0, len(items)), self.datum(1))
+        if mutate and t == "list" and len(items) >= 1 and r.random() < 0.2:
+            # a dotted list where the pattern has a proper one: the tail must not be dropped silently
+            return "(%s . %s)" % (" ".join(items), r.choice(["3", "x", "()", "(4)"]))
         return ("(%s)" if t == "list" else "#(%s)") % " ".join(items)
 
     def macro_case(self, nrules, nuses):
@@ -915,6 +955,9 @@ def derived_templates():
         ("cond-test-only", "(cond ((if (< {0} 5) #f 7)) (else {1} 9))"),
         ("case", "(case (+ 0 {0}) ((1 2) {1} 10) ((3) {2} 30) (else {3} 40))"),
         ("case=>", "(case {0} ((1 3) => (lambda (r) (+ r {1}))) (else => (lambda (r) (- r {2}))))"),
+        ("case-else-only", "(case (+ 0 {0}) (else {1} 5))"),
+        ("case-else=>-only", "(case (+ 0 {0}) (else => (lambda (r) (+ r {1}))))"),
+        ("case=>-not-last", "(case (+ 0 {0}) ((1 2 3) => (lambda (r) (list r {1}))) ((7) 0) (else 9))"),
         ("and", "(if (and (< {0} 9) (< {1} 9) {2}) 1 0)"),
         ("or", "(if (or (< 9 {0}) (< 9 {1}) #f) 1 0)"),
         ("when", "(if (when (< {0} 9) {1} {2}) 1 0)"),
@@ -1156,7 +1199,7 @@ class DatumGen:
 # ------------------------------------------------------------------------------------------
 # C14 / C13: library graphs
 # ------------------------------------------------------------------------------------------
-NODE_KINDS = ["healthy", "missing", "faulting", "wrong-name", "broken", "not-utf8"]
+NODE_KINDS = ["healthy", "missing", "faulting", "faulting-early", "wrong-name", "broken", "not-utf8"]
 
 
 def library_text(name, imports, kind):
@@ -1167,6 +1210,10 @@ def library_text(name, imports, kind):
         return "(define-library (%s) (export %s-v) %s (begin (define %s-v '%s)))" % (name, name, imports_decl, name, name)
     if kind == "faulting":
         return "(define-library (%s) (export %s-v) %s (begin (define %s-v (car '()))))" % (name, name, imports_decl, name)
+    if kind == "faulting-early":
+        # the fault is in the middle of the body: what follows must not run and the library must not load
+        return ("(define-library (%s) (export %s-v) %s (begin (define %s-t (vector 1 2)) (vector-ref %s-t 3) (define %s-v '%s)))"
+                % (name, name, imports_decl, name, name, name, name))
     if kind == "wrong-name":
         return "(define-library (not-%s) (export %s-v) %s (begin (define %s-v 1)))" % (name, name, imports_decl, name)
     if kind == "broken":
@@ -1511,13 +1558,18 @@ LOC_FAULTS = {
 LOC_CONTEXTS = ["direct", "nested", "lambda-call", "apply", "library-lambda", "derived"]
 
 
-def located_fault_program(rng, kind, context):
+LOC_DERIVED = ["(let ((z 1)) z %s)", "(let* ((z 1) (w z)) w %s)", "(cond (#f 1) (else 2 %s))", "(and 1 %s)", "(or #f %s)",
+               "(begin 1 %s)", "(when #t 1 %s)", "(case 2 ((1) 0) ((2) 5 %s) (else 1))", "(cond (%s))", "(and %s)", "(or %s)",
+               "(unless #f 1 %s)", "(cond (#f 1) (%s))", "(case 2 ((2) %s))"]
+
+
+def located_fault_program(rng, kind, context, template=None, fault=None):
     """the fault sits in the text of the failing top-level form itself. returns (forms, index, marker) where marker is
     None or the index, among the tokens of the failing form, of the offending identifier / operator"""
     g = Gen(rng, ticks=False, derived=True)
     forms, _ = g.program(rng.randint(0, 5), 2)
     forms.append("(define fa2 (lambda (a b) (+ a b)))")
-    expr, marker = rng.choice(LOC_FAULTS[kind])
+    expr, marker = fault if fault is not None else rng.choice(LOC_FAULTS[kind])
     if context == "direct":
         f = expr
     elif context == "nested":
@@ -1530,8 +1582,7 @@ def located_fault_program(rng, kind, context):
     elif context == "library-lambda":
         f = rng.choice(["(map (lambda (z) %s) '(1 2))", "(for-each (lambda (z) %s) '(1))", "(fold-left (lambda (z acc) %s) 0 '(1))"]) % expr
     else:
-        f = rng.choice(["(let ((z 1)) z %s)", "(let* ((z 1) (w z)) w %s)", "(cond (#f 1) (else 2 %s))", "(and 1 %s)", "(or #f %s)",
-                        "(begin 1 %s)", "(when #t 1 %s)", "(case 2 ((1) 0) ((2) 5 %s) (else 1))"]) % expr
+        f = (template if template is not None else rng.choice(LOC_DERIVED)) % expr
     idx = len(forms)
     forms.append(f)
     forms.append("(display 'not-reached)")
